@@ -43,6 +43,12 @@
 ;; spec VerifiedMsg (Iface Int Str Str Str) Bool
 (declare-fun VerifiedMsg (Iface Int Str Str Str) Bool)
 ;; spec VerifiedSeed (Iface Int Str Str Str) Bool
+;; spec SignsAs (Iface Str) Bool
+(declare-fun SignsAs (Iface Str) Bool)
+;; spec VCHeaderBytes (Int Int Int Int Int) Str
+(declare-fun VCHeaderBytes (Int Int Int Int Int) Str)
+;; spec NVHeaderBytes (Int Int Int Int Slice_Int) Str
+(declare-fun NVHeaderBytes (Int Int Int Int Slice_Int) Str)
 (declare-fun VerifiedSeed (Iface Int Str Str Str) Bool)
 ;; spec Commits (Iface Int Iface Str) Bool
 (declare-fun Commits (Iface Int Iface Str) Bool)
@@ -80,6 +86,11 @@
 ;; spec LeaderFn (Int Int) BS
 (declare-fun LeaderFn (Int Int) BS)
 ;; section wire
+; A-MB-RT: the union wrapper of a consensus message: which arm the bytes carry and the bytes of that arm
+;; spec WireTag (Str) Int
+(declare-fun WireTag (Str) Int)
+;; spec WirePayload (Str) Str
+(declare-fun WirePayload (Str) Str)
 ; A-MB-RT: canonical membuffers encoding of a BlockRef as a function of its five fields
 ;; spec BlockRefBytes (Int Int Int Int Str) Str
 (declare-fun BlockRefBytes (Int Int Int Int Str) Str)
